@@ -71,7 +71,10 @@ def check(ctx):
     # ---- _update_post_selection -------------------------------------------------------
     active = arr("active", "A", inp=False, dtype="int")
 
+    hits = []
+
     def stub_active(interp, clo, args, kw, st_, node):
+        hits.append(1)
         return active
 
     I, st = ctx.interp(stubs={"VoronoiFPS._get_active": stub_active}, order=[("A", ">=", 1)]), State()
@@ -81,9 +84,21 @@ def check(ctx):
     I2, s2 = ctx.interp(order=[("A", ">=", 1)]), State()
     ref = ctx.call_func(I2, s2, "ref.selection_ref.voronoi_update", X, norms, H, Hs, vloc, active, nsel, l, ff)
     site = ctx.site(P.method(cls, "_update_post_selection"))
-    ctx.compare("R-BOTHARMS", "hausdorff_ after one step (both arms, running minimum)", N, ctx.attr(st, o, "hausdorff_"), ref.items[1], site)
-    ctx.compare("R-RUNMIN", "hausdorff_at_select_ recorded before the update", N, ctx.attr(st, o, "hausdorff_at_select_"), ref.items[0], site)
-    ctx.compare("R-INDEXSPACE", "vlocation_of_idx of updated points and of the pick := n_selected_ before the increment", N, ctx.attr(st, o, "vlocation_of_idx"), ref.items[2], site)
+    if not hits:
+        # the step no longer obtains the active set from _get_active (the anchor the obligations below hang on): undecided
+        ctx.error("R-BOTHARMS", "the selection step obtains its active set from _get_active", "VoronoiFPS._update_post_selection does not call _get_active: the step was restructured and cannot be compared with the reference step", site)
+        _calibration(ctx, N, cls)
+        return
+    # an equivalent spelling of the reference step (only the recomputed entries are compared and written on the pruned arm)
+    try:
+        I2b, s2b = ctx.interp(order=[("A", ">=", 1)]), State()
+        alt = ctx.call_func(I2b, s2b, "ref.selection_ref.voronoi_update_active_only", X, norms, H, Hs, vloc, active, nsel, l, ff)
+        alts = [[alt.items[k]] for k in range(3)]
+    except Exception:
+        alts = [[], [], []]
+    ctx.compare("R-BOTHARMS", "hausdorff_ after one step (both arms, running minimum)", N, ctx.attr(st, o, "hausdorff_"), ref.items[1], site, alternatives=alts[1])
+    ctx.compare("R-RUNMIN", "hausdorff_at_select_ recorded before the update", N, ctx.attr(st, o, "hausdorff_at_select_"), ref.items[0], site, alternatives=alts[0])
+    ctx.compare("R-INDEXSPACE", "vlocation_of_idx of updated points and of the pick := n_selected_ before the increment", N, ctx.attr(st, o, "vlocation_of_idx"), ref.items[2], site, alternatives=alts[2])
     ctx.no_shape_conflicts("Shape", "VoronoiFPS._update_post_selection", I, 0, site)
     ns = ctx.attr(st, o, "n_selected_")
     ctx.ob("R-ONCE", "one selection advances n_selected_ by exactly one", N.nf(ns.term) == N.nf(T("add", nsel.term, T("const", __import__("fractions").Fraction(1)))), f"{ns.term!r}", site)
